@@ -673,3 +673,111 @@ def check_vector_constructor(run, tree):
             run.violated(construct, init.where(), "raises %s" % e, "v.unit = u")
         except ERR as e:
             run.unresolved(construct, init.where(), "cannot fold: %s" % e)
+
+
+# =============================================================================== copies (C17.R4/R5)
+def check_copies_fold(run, tree):
+    """copy(), copy.copy and copy.deepcopy of Array, Vector, Datagroup and Dataset folded over buffer tokens: deep ones allocate fresh
+    buffers for every component / member, container copy() re-inserts the SAME member objects into a new container"""
+    from . import array_folds as af
+    hooks = core_hooks()
+    ev = _ev(tree, hooks)
+
+    def variants(obj):
+        m = tree.method(obj._cls, "copy")
+        out = []
+        if m is not None:
+            out.append(("copy()", lambda: ev.invoke(m, [obj], {}, None)))
+        out.append(("copy.copy", lambda: ev.py_copy(obj, deep=False)))
+        out.append(("copy.deepcopy", lambda: ev.py_copy(obj, deep=True)))
+        return out
+    # ---- Array (the class itself interpreted)
+    hk = af.hooks()
+    a = af.new_array(tree, hk, "A", "m")
+    a._attrs["name"] = "nm"
+    eva = ModelEval(tree, tree.func(af.ARRAY_Q + ".__init__"), {}, hk)
+    for label, deep in (("copy()", None), ("copy.copy", False), ("copy.deepcopy", True)):
+        construct = "%s::%s" % (af.ARRAY_Q, label)
+        try:
+            m = tree.method(a._cls, "copy")
+            if deep is None and m is None:
+                run.violated(construct, "src/osyris/core/array.py", "Array.copy is not defined", "a.copy()")
+                continue
+            r = eva.invoke(m, [a], {}, None) if deep is None else eva.py_copy(a, deep=deep)
+            st = af.arr_state(r) if isinstance(r, PyObj) else None
+            ok = isinstance(r, PyObj) and r is not a and st == (("copy", "A"), "m") and r._attrs.get("name", r._attrs.get("_name")) == "nm" and af.arr_state(a) == ("A", "m")
+            run.ob(construct, ok, "src/osyris/core/array.py", "%s -> %s%s" % (label, st, "" if ok else " (required a new Array on a fresh copy of the buffer, same unit and name)"),
+                   "b = %s; b *= 2 changes a (or a later in-place update of a shows through b); the unit or name is lost" % label)
+        except (Raised, ProgramRaised) as e:
+            run.violated(construct, "src/osyris/core/array.py", "raises %s" % e, label)
+        except ERR as e:
+            run.unresolved(construct, "src/osyris/core/array.py", "cannot fold: %s" % e)
+    # ---- Vector
+    for n in (3, 1):
+        v, _ = make_vector(tree, {c: "L." + c for c in "xyz"[:n]}, unit="m", hooks=hooks)
+        for label, fn in variants(v):
+            construct = "%s::%s[%d components]" % (VECTOR_Q, label, n)
+            try:
+                r = fn()
+                got = {c: x.origin for c, x in vector_components(tree, r, hooks).items()} if isinstance(r, PyObj) else None
+                want = {c: ("copy", "L." + c) for c in "xyz"[:n]}
+                run.ob(construct, r is not v and got == want, "src/osyris/core/vector.py", "%s -> %s" % (label, got),
+                       "w = %s of v; w.x *= 2 changes v.x" % label, nontrivial=n == 3)
+            except (Raised, ProgramRaised) as e:
+                run.violated(construct, "src/osyris/core/vector.py", "raises %s" % e, label)
+            except ERR as e:
+                run.unresolved(construct, "src/osyris/core/vector.py", "cannot fold: %s" % e)
+    # ---- Datagroup
+    g = make_group(tree, hooks)
+    for label, fn in variants(g):
+        construct = "%s::%s" % (DG_Q, label)
+        try:
+            r = fn()
+            cont, orig = (r._attrs.get("_container") if isinstance(r, PyObj) else None), g._attrs["_container"]
+            if label == "copy.deepcopy":
+                ok = isinstance(cont, dict) and r is not g and cont is not orig and list(cont) == list(orig) and all(cont[k] is not orig[k] for k in orig) and \
+                    cont["a"].origin == ("copy", "a") and {c: x.origin for c, x in vector_components(tree, cont["v"], hooks).items()} == {c: ("copy", "v." + c) for c in "xyz"}
+                want = "a new group whose members are copies on fresh buffers"
+            else:
+                ok = isinstance(cont, dict) and r is not g and cont is not orig and list(cont) == list(orig) and all(cont[k] is orig[k] for k in orig)
+                want = "a new group holding the SAME member objects"
+            run.ob(construct, ok, "src/osyris/core/datagroup.py", "%s gives %s: %s" % (label, want, ok),
+                   "g2 = g.copy(); g2['a'] *= 2 is not seen through g['a'] (container copies are documented shallow) / deepcopy(g)['a'] *= 2 changes g['a'] / a member is missing")
+        except (Raised, ProgramRaised) as e:
+            run.violated(construct, "src/osyris/core/datagroup.py", "raises %s" % e, label)
+        except ERR as e:
+            run.unresolved(construct, "src/osyris/core/datagroup.py", "cannot fold: %s" % e)
+    # ---- Dataset
+    evd = _ev(tree, hooks, DS_Q + ".__init__")
+    ds = evd.instantiate(tree.cls(DS_Q), [], {}, None)
+    call_method(tree, hooks, ds, "__setitem__", "gas", make_group(tree, hooks))
+    ds._attrs["meta"] = {"time": "T", "nested": {"k": 1}}
+    gobj = ds._attrs["groups"]["gas"]
+    for label, fn in variants(ds):
+        construct = "%s::%s" % (DS_Q, label)
+        try:
+            r = fn()
+            problems = []
+            if not (isinstance(r, PyObj) and r is not ds and r._cls.qual == DS_Q):
+                problems.append("returns %r" % (r,))
+            else:
+                gr = r._attrs.get("groups", {})
+                meta = r._attrs.get("meta")
+                if list(gr) != ["gas"]:
+                    problems.append("groups %s" % list(gr))
+                elif label == "copy.deepcopy":
+                    if gr["gas"] is gobj or gr["gas"]._attrs["_container"]["a"] is gobj._attrs["_container"]["a"]:
+                        problems.append("the deep copy shares a group or a member with the original")
+                    if meta != ds._attrs["meta"] or meta is ds._attrs["meta"] or meta["nested"] is ds._attrs["meta"]["nested"]:
+                        problems.append("metadata of the deep copy: %r" % (meta,))
+                else:
+                    if gr["gas"] is not gobj:
+                        problems.append("copy() does not share the group objects (container copies are documented shallow)")
+                    if meta != ds._attrs["meta"] or meta is ds._attrs["meta"]:
+                        problems.append("metadata %s" % ("shared with the original" if meta is ds._attrs["meta"] else "lost: %r" % (meta,)))
+            run.ob(construct, not problems, "src/osyris/core/dataset.py", "; ".join(problems) or "%s: %s" % (label, "independent" if label == "copy.deepcopy" else "new Dataset, same groups, own metadata dict"),
+                   "ds.copy().meta['x'] = 1 changes ds.meta; deepcopy(ds)['gas']['a'] *= 2 changes ds")
+        except (Raised, ProgramRaised) as e:
+            run.violated(construct, "src/osyris/core/dataset.py", "raises %s" % e, label)
+        except ERR as e:
+            run.unresolved(construct, "src/osyris/core/dataset.py", "cannot fold: %s" % e)
